@@ -142,7 +142,10 @@ class FunctionCall:
         self._assert_annotation_is_complete(annotation=param.annotation)
         expected = param.annotation
 
-        for arg in self.args:
+        name = list(params.keys())[0]
+        values = self.func.signature.bind_partial(*self.args).arguments.get(name, ())  # what *args really receives
+
+        for arg in values:
             assert_value_matches_type(
                 value=arg,
                 type_=expected,
